@@ -10,7 +10,7 @@
 (* err = "ok" | uaf-* | race-* (first problem found).                      *)
 (***************************************************************************)
 EXTENDS Naturals, FiniteSets, Sequences, TLC
-CONSTANTS NSwaps, OrdCand, OrdCtrl, OrdHslot, OrdEnv, OrdStSwap, OrdPayOk, OrdPayFail, OrdHelpLoad
+CONSTANTS StrictSC, NSwaps, OrdCand, OrdCtrl, OrdHslot, OrdEnv, OrdStSwap, OrdPayOk, OrdPayFail, OrdPayOkW, OrdPayFailW, OrdHelpLoad
 R == "r"  W == "w"
 Threads == {R, W}
 Addrs == {1, 2}
@@ -35,7 +35,12 @@ vars == <<mem, cur, acq, G, dclk, live, pc, loc, err>>
 
 Last(x) == mem[x][Len(mem[x])]
 \* --- generic effects, computed as records [mem, cur, acq, G, val]
-PreSC(t, o) == IF o = "sc" THEN Join(cur[t], G) ELSE cur[t]
+\* StrictSC = FALSE: "SeqCst synchronises the time lines" (what the crate's comments assume and every mainstream
+\* hardware mapping provides): a SeqCst access sees, for EVERY atomic location, at least what any earlier SeqCst
+\* access had seen.  StrictSC = TRUE: ISO C++20 / Rust: the SeqCst order only constrains SeqCst accesses to the
+\* SAME location (a SeqCst load reads the last SeqCst write to that location or a later one); a non-SeqCst load
+\* that follows a SeqCst read-modify-write of ANOTHER location may still be stale.
+PreSC(t, o) == IF o = "sc" /\ ~StrictSC THEN Join(cur[t], G) ELSE cur[t]
 \* load of message i of x by t with order o
 LoadEff(t, x, i, o) ==
   LET c0 == PreSC(t, o)
@@ -169,7 +174,7 @@ H8 == /\ pc[W] = "H8" /\ Cas(W, "ctrl", loc[W].c, REPL(loc[W].e), OrdCtrl, OrdCt
 H8f == /\ pc[W] = "H8f" /\ DecStep(W, loc[W].r, "H1b")
 H9 == /\ pc[W] = "H9" /\ LET e == StoreEff(W, "spw", loc[W].ts, OrdEnv) IN Apply(W, e)
       /\ Goto(W, "P") /\ UNCHANGED <<dclk, live, err, loc>>
-P == /\ pc[W] = "P" /\ Cas(W, "sl", loc[W].old, 0, OrdPayOk, OrdPayFail, "P2", "W5", "") /\ UNCHANGED <<dclk, live, err>>
+P == /\ pc[W] = "P" /\ Cas(W, "sl", loc[W].old, 0, OrdPayOkW, OrdPayFailW, "P2", "W5", "") /\ UNCHANGED <<dclk, live, err>>
 P2 == /\ pc[W] = "P2" /\ IncStep(W, loc[W].old, "W5")
 W5 == /\ pc[W] = "W5" /\ DecStep(W, loc[W].old, "W6")
 W6 == /\ pc[W] = "W6" /\ DecStep(W, loc[W].old, "start")
